@@ -1,8 +1,8 @@
 (* C03 — executable instantiation used by the correspondence check (depends on Model.v only).
    A case is a history of API calls with a call-depth limit and a fault plan, together with what the
    implementation showed after EACH call: result class, the VerifIdle vector, the register vectors seen by
-   every probe() during the call, and the effect log.  The case is checked against S (the repaired
-   algorithm, [fixed = true]); RunI.v checks the same observation against I (the current algorithm). *)
+   every probe() during the call, and the effect log.  The case is checked against the repaired
+   algorithm ([fixed = true]), which is goja's algorithm since the fixes of F16/F17/F21/F22 landed in /repo. *)
 From Coq Require Import List ZArith NArith Bool Arith.
 Import ListNotations.
 From Verif.C03 Require Export Model.
@@ -73,18 +73,10 @@ Fixpoint mismatch_from (f : tcase -> bool) (i : N) (cs : list tcase) : list N :=
   end.
 Definition mismatch_ids := mismatch_from (check_with true) 0%N.
 
-(* verdict per case: 0 = the implementation agrees with S; 1 = it disagrees with S and is not explained by I;
-   100 + mask = it disagrees with S, agrees with I, and I ran into the recorded deviations in mask
-   (1: F16, 2: F17, 4: F21, 8: F22) *)
-Definition has (n : nat) (l : list nat) : bool := existsb (Nat.eqb n) l.
-Definition mask_of (d : list nat) : N :=
-  ((if has 16 d then 1 else 0) + (if has 17 d then 2 else 0) + (if has 21 d then 4 else 0) + (if has 22 d then 8 else 0))%N.
-Definition verdict (c : tcase) : N :=
-  if check_with true c then 0%N
-  else let r := run_both false c in
-       if check_run c r then (if N.eqb (mask_of (leaked (snd r))) 0 then 1 else 100 + mask_of (leaked (snd r)))%N
-       else 1%N.
+(* verdict per case: 0 = the implementation agrees with the model (the repaired algorithm, which is goja's algorithm
+   since F16 195c9cc, F17 60d9770, F21 82237e3, F22 7d68b51); 1 = it disagrees *)
+Definition verdict (c : tcase) : N := if check_with true c then 0%N else 1%N.
 Definition verdicts (cs : list tcase) : list N := map verdict cs.
 
 (* (S, I) *)
-Definition expected (c : tcase) := (run_model true c, idle_full (final_state true c), run_model false c, idle_full (final_state false c)).
+Definition expected (c : tcase) := (run_model true c, idle_full (final_state true c)).
